@@ -10,7 +10,7 @@ import re
 
 from ..report import Inconclusive
 from ..py.guards import AEval, Kind, KINDS, Reach, always_raises
-from ..py.index import u, walk_shallow
+from ..py.index import u, walk_shallow, pos
 from ..py.templates import Lang, FORMAT_SHAPE, READ_FORM, included, intersect_witness
 from ..py import norm
 from . import common
@@ -497,6 +497,7 @@ def kind_coverage(rep, R, ix, M, extra_kinds=()):
     for need in ("positional argument", "keyword argument", "metadata option", "list element"):
         if need not in names:
             raise Inconclusive("serialize: %s loop not recognised" % need)
+    list_early_returns(rep, R, ix, [s for s in slots if s.name == "list element"], list(LOADER_SCALARS) + list(extra_kinds))
     for s in slots:
         kinds = list(LOADER_SCALARS) + list(extra_kinds)
         if s.name in ("positional argument", "keyword argument"):
@@ -507,6 +508,45 @@ def kind_coverage(rep, R, ix, M, extra_kinds=()):
             kinds = [k for k in kinds if k not in ("Sym",)]
         render_checks(rep, R, ix, L, s, kinds)
     return L, slots
+
+
+REPR_IS_FORMAT = ("PyInt", "PyBool", "PyFloat", "PyComplex")      # kinds whose repr() inside str(list) equals their "{}".format rendering
+
+
+def list_early_returns(rep, R, ix, slots, kinds):
+    """a return of list_to_blackbird in front of the element loop (a fast path) writes the whole list at once: decided per element kind on the
+    homogeneous list of that kind - is the return reached, and does what it returns render that kind the way the element arms would"""
+    from ..py.guards import Reach
+    for slot in slots:
+        g = slot.fn
+        fn = g.node
+        lst = g.params[0]
+        early = [r for r in walk_shallow(fn) if isinstance(r, ast.Return) and pos(r) < pos(slot.loop)]
+        for r in early:
+            txt = " ".join(u(r.value).split()) if r.value is not None else "None"
+            for kind in kinds:
+                if kind not in XK and kind not in KINDS:
+                    continue
+                model = XK.get(kind) or KINDS[kind]
+
+                def atom(node, model=model):
+                    if isinstance(node, ast.Name) and node.id == lst:
+                        return (model, model)
+                    return AEval.NO
+                try:
+                    reached = Reach(fn, r).may_reach(atom)
+                except Inconclusive:
+                    reached = True
+                if not reached:
+                    continue
+                whole = txt in ("str(%s)" % lst, "repr(%s)" % lst, "'{}'.format(%s)" % lst, "f'{%s}'" % lst, "'%%s' %% %s" % lst, "str(list(%s))" % lst)
+                if whole:
+                    rep.check(kind in REPR_IS_FORMAT, R, ix.site(g, r), "list of %s elements: `return %s` writes each element as the element arms do" % (kind, txt),
+                              "str() of a list prints its elements with repr(): %s" % ("a NumPy scalar is printed as np.float64(...) / np.int64(...), which is no Blackbird number" if kind.startswith("Np")
+                                                                                       else "a string is printed in single quotes, which is no Blackbird string" if kind == "PyStr" else "repr() of this kind is not its Blackbird form"),
+                              key="list|early|%s|%s" % (txt[:40], kind))
+                else:
+                    rep.unknown(R, ix.site(g, r), "list of %s elements: `return %s` in front of the element loop renders the elements as the element arms do" % (kind, txt[:50]), "fast path not recognised")
 
 
 # ------------------------------------------------------------------------------------------------------------ C01.3 re-bracing
